@@ -30,8 +30,9 @@ CFGS = (Cfg("sync", True, False, "direct"), Cfg("sync", True, True, "direct"),
         Cfg("async", True, False, "facade"))
 
 
-def make_spec(dist, asyn, with_l3, expr_guard=False):
-    """dist: {name: frozenset(providers)}.  with_l3: whether L3 is (already) attached."""
+def make_spec(dist, asyn, with_l3, expr_guard=False, only=None):
+    """dist: {name: frozenset(providers)}.  with_l3: whether L3 is (already) attached.
+    only: if set, just this provider's callbacks are coroutines (mixed listeners)."""
     fl = "a" if asyn else ""
     provided = []
     for nm, provs in dist.items():
@@ -41,6 +42,8 @@ def make_spec(dist, asyn, with_l3, expr_guard=False):
             # coroutine guards inside a boolean expression are C05's known finding; here the
             # names of an expression guard stay plain functions
             gfl = "" if (expr_guard and nm in ("ok", "ready")) else fl
+            if only is not None and p != only:
+                gfl = ""
             provided.append((p, nm, gfl))
     ctor = lambda nm: any(p != "L3" for p in dist.get(nm, ()))   # noqa: E731
     cond, unless, validators, on = [], [], [], []
@@ -55,8 +58,10 @@ def make_spec(dist, asyn, with_l3, expr_guard=False):
         validators.append("chk")
     if ctor("act"):
         on.append("act")
-    if asyn and not any(f for (_p, _n, f) in provided):
-        provided.append(("sm", "after_transition", "a"))
+    if only is not None:
+        if not any(f for (_p, _n, f) in provided):
+            return None          # that provider defines nothing here: no coroutine at all
+        provided.append(("sm", "after_transition", ""))
     elif asyn:
         provided.append(("sm", "after_transition", "a"))
     else:
@@ -126,7 +131,7 @@ def _eq_variant(cls, kind):
 
 
 def run_scenario(dist, cfg, attach_at, vals, reattach=0, expr_guard=False, two=False,
-                 same_cls=False, inst_bound=False, lkind=None):
+                 same_cls=False, inst_bound=False, lkind=None, only=None):
     """attach_at: 0, 1, 2 = L3 attached before the 1st / 2nd / after the 2nd event; None = never."""
     asyn = cfg.engine == "async"
     if same_cls:
@@ -137,10 +142,12 @@ def run_scenario(dist, cfg, attach_at, vals, reattach=0, expr_guard=False, two=F
         if not dist:
             return None, 0
     uses_l3 = any("L3" in provs for provs in dist.values())
-    m0 = make_spec(dist, asyn, False, expr_guard)
-    m1 = make_spec(dist, asyn, True, expr_guard)
+    m0 = make_spec(dist, asyn, False, expr_guard, only=only)
+    m1 = make_spec(dist, asyn, True, expr_guard, only=only)
+    if m0 is None or m1 is None:
+        return None, 0
     built = build(m0)
-    l3cls = listener_class("L3", dist, asyn)
+    l3cls = listener_class("L3", dist, asyn and only in (None, "L3"))
     if lkind:
         for lab in ("L1", "L2"):
             built.listener_cls[lab] = _eq_variant(built.listener_cls[lab], lkind)
@@ -254,18 +261,25 @@ def worker(block):
                                      (0, False, False, False, "unhashable"),
                                      (0, False, True, False, "equal"),
                                      (2, False, False, False, "equal")]
-                    for (reattach, two, same_cls, inst_bound, lkind) in variants:
+                    variants = [v + (None,) for v in variants]
+                    if cfg.engine == "async" and len(dist) == 1:
+                        # mixed listeners: only one of the constructor listeners is a coroutine
+                        # provider; the machine must still run (and await) on the async engine
+                        variants += [(0, False, False, False, None, "L1"),
+                                     (0, False, False, False, None, "L2")]
+                    for (reattach, two, same_cls, inst_bound, lkind, only) in variants:
                         res.stats["evaluations"] += 1
                         sc = {"dist": {k: sorted(v) for k, v in dist.items()},
                               "cfg": list(cfg), "attach_at": attach_at,
                               "vals": [[list(k), v] for k, v in vals.items()],
                               "reattach": reattach, "two": two, "same_cls": same_cls,
-                              "inst_bound": inst_bound, "lkind": lkind, "expr": kind == "expr"}
+                              "inst_bound": inst_bound, "lkind": lkind, "only": only,
+                              "expr": kind == "expr"}
                         try:
                             with deadline(30):
                                 msg, steps = run_scenario(dist, cfg, attach_at, vals, reattach,
                                                           kind == "expr", two, same_cls,
-                                                          inst_bound, lkind)
+                                                          inst_bound, lkind, only)
                         except Ambiguous:
                             res.stats["ambiguous_skipped"] += 1
                             continue
@@ -339,5 +353,5 @@ def replay(sc):
     vals = {tuple(k): v for k, v in sc["vals"]}
     msg, _ = run_scenario(dist, Cfg(*sc["cfg"]), sc["attach_at"], vals, sc["reattach"],
                           sc["expr"], sc["two"], sc["same_cls"], sc.get("inst_bound", False),
-                          sc.get("lkind"))
+                          sc.get("lkind"), sc.get("only"))
     return msg
